@@ -244,3 +244,24 @@ void _ZNSaIcEC2ERKS_(IR2C_ARGS__ZNSaIcEC2ERKS_) { (void)a0; (void)a1; }
 #ifdef IR2C_NEED__ZNSaIcEC1ERKS_
 void _ZNSaIcEC1ERKS_(IR2C_ARGS__ZNSaIcEC1ERKS_) { (void)a0; (void)a1; }
 #endif
+
+/* std::_Rb_tree_increment (in-order successor; libstdc++ tree.cc): iteration over std::set / std::map.
+ * Node layout as declared by the IR: f0 colour, f1 parent, f2 left, f3 right; header.parent = root, header.right = rightmost. */
+#ifdef IR2C_NEED__ZSt18_Rb_tree_incrementPKSt18_Rb_tree_node_base
+IR2C_RET__ZSt18_Rb_tree_incrementPKSt18_Rb_tree_node_base _ZSt18_Rb_tree_incrementPKSt18_Rb_tree_node_base(IR2C_ARGS__ZSt18_Rb_tree_incrementPKSt18_Rb_tree_node_base) {
+  IR2C_RET__ZSt18_Rb_tree_incrementPKSt18_Rb_tree_node_base x = a0;
+  IR2C_RET__ZSt18_Rb_tree_incrementPKSt18_Rb_tree_node_base y;
+  if (x->f3 != 0) { x = x->f3; while (x->f2 != 0) x = x->f2; }
+  else { y = x->f1; while (x == y->f3) { x = y; y = y->f1; } if (x->f3 != y) x = y; }
+  return x;
+}
+#endif
+#ifdef IR2C_NEED__ZSt18_Rb_tree_incrementPSt18_Rb_tree_node_base
+IR2C_RET__ZSt18_Rb_tree_incrementPSt18_Rb_tree_node_base _ZSt18_Rb_tree_incrementPSt18_Rb_tree_node_base(IR2C_ARGS__ZSt18_Rb_tree_incrementPSt18_Rb_tree_node_base) {
+  IR2C_RET__ZSt18_Rb_tree_incrementPSt18_Rb_tree_node_base x = a0;
+  IR2C_RET__ZSt18_Rb_tree_incrementPSt18_Rb_tree_node_base y;
+  if (x->f3 != 0) { x = x->f3; while (x->f2 != 0) x = x->f2; }
+  else { y = x->f1; while (x == y->f3) { x = y; y = y->f1; } if (x->f3 != y) x = y; }
+  return x;
+}
+#endif
